@@ -33,8 +33,8 @@ let () =
       let r = { r_registry = unh hr; r_repository = unh hp; r_reference = unh hf } in
       let p = (plain = "1") in
       let u = match kind with
-        | "referrers" -> url_referrers_at p r (unh ha)
-        | "mount" -> url_mount p r (unh hf) (unh ha)
+        | "referrers" -> gen_url_referrers_at p r (unh ha)
+        | "mount" -> gen_url_mount p r (unh hf) (unh ha)
         | _ -> failwith "qkind" in
       let ho o = match o with None -> "none" | Some s -> "some:" ^ hex_of_str s in
       (match url_split u with
@@ -70,14 +70,14 @@ let () =
       let r = { r_registry = str_of_hex hr; r_repository = str_of_hex hp; r_reference = str_of_hex hf } in
       let p = (plain = "1") in
       let u = match kind with
-        | "manifest" -> url_manifest p r
-        | "blob" -> url_blob p r
-        | "referrers" -> url_referrers p r
-        | "taglist" -> url_taglist p r
-        | "upload" -> url_upload p r
-        | "base" -> url_base p r
-        | "catalog" -> url_catalog p r
-        | "repobase" -> url_repo_base p r
+        | "manifest" -> gen_url_manifest p r
+        | "blob" -> gen_url_blob p r
+        | "referrers" -> gen_url_referrers p r
+        | "taglist" -> gen_url_taglist p r
+        | "upload" -> gen_url_upload p r
+        | "base" -> gen_url_base p r
+        | "catalog" -> gen_url_catalog p r
+        | "repobase" -> gen_url_repo_base p r
         | _ -> failwith "kind" in
       let hx s = match s with [] -> "-" | _ -> hex_of_str s in
       let ho o = match o with None -> "none" | Some s -> "some:" ^ hx s in
